@@ -333,6 +333,14 @@ func Mangle(r Rnd, method string, codec bool, structuralOnly bool, frame []byte)
 			}
 		}
 		body, _ = proto.Marshal(m)
+		if len(cells) == 0 && r.Chance(0.4) {
+			// the header announces a cellblock of no bytes instead of none at all
+			if r.Chance(0.5) {
+				setMeta(0)
+			} else {
+				h.CellBlockMeta = &pb.CellBlockMeta{}
+			}
+		}
 	case "kv-length-huge", "kv-length-wrap", "kv-keylen-bad", "kv-rowlen-bad", "kv-truncated":
 		raw := cells
 		if codec && len(raw) > 0 {
@@ -472,7 +480,7 @@ func Mangle(r Rnd, method string, codec bool, structuralOnly bool, frame []byte)
 // MetaCorruptKinds lists the damage done to hbase:meta rows.
 var MetaCorruptKinds = []string{"regioninfo-empty", "regioninfo-short", "regioninfo-bad-magic", "regioninfo-bad-proto", "regioninfo-offline",
 	"regioninfo-no-table", "server-absent", "server-empty", "regioninfo-absent", "rowkey-no-commas", "rowkey-one-comma", "rowkey-garbage", "region-older",
-	"rowkey-other-start", "rowkey-other-table"}
+	"rowkey-other-start", "rowkey-other-table", "region-older-parent"}
 
 // CorruptMeta damages the cells of one meta row.
 func CorruptMeta(r Rnd, cells []Cell) ([]Cell, string) {
@@ -528,16 +536,24 @@ func CorruptMetaKind(r Rnd, cells []Cell, kind string) ([]Cell, string) {
 			// hbase:meta answers with an older incarnation of the region: smaller id, other name
 			j := bytes.LastIndexByte(row, ',')
 			newRow = append(append([]byte(nil), row[:j+1]...), []byte("1.0123456789abcdef0123456789abcdef.")...)
+		case "region-older-parent":
+			// hbase:meta is stale: it answers with the parent the table's regions
+			// were split from, an older region that spans the whole table
+			i := bytes.IndexByte(row, ',')
+			newRow = append(append([]byte(nil), row[:i+1]...), []byte(",1.0123456789abcdef0123456789abcdef.")...)
 		}
 	}
 	for _, c := range cells {
 		q := string(c.Qual)
 		if newRow != nil {
 			c.Row = newRow
-			if kind == "region-older" && q == "regioninfo" {
+			if (kind == "region-older" || kind == "region-older-parent") && q == "regioninfo" {
 				ri := &pb.RegionInfo{}
 				if proto.Unmarshal(c.Value[4:], ri) == nil {
 					ri.RegionId = proto.Uint64(1)
+					if kind == "region-older-parent" {
+						ri.StartKey, ri.EndKey = []byte{}, []byte{}
+					}
 					b, _ := proto.Marshal(ri)
 					c.Value = append([]byte("PBUF"), b...)
 				}
